@@ -3,6 +3,7 @@ package main
 import (
 	"fmt"
 	"net"
+	"os"
 	"sort"
 	"strconv"
 	"strings"
@@ -14,11 +15,35 @@ var drivers = map[string]hx.DriverFn{}
 
 func main() { hx.Main(drivers) }
 
-// every socket of this property lives on 127.0.9.x, ports 20900..20999
-const (
-	loopA    = "127.0.9.1"
-	basePort = 20900
+// every socket of this property lives on 127.0.9.x, ports 20900..20999.  Each driver process claims its
+// own pair of loopback addresses (127.0.9.2k for the manager/proxy drivers, 127.0.9.2k+1 for the
+// in-process frps) by holding a listener on 127.0.9.2k:20898 for its lifetime, so several C09 checks can
+// run at the same time without seeing each other's sockets.  Case files contain ports only, never
+// addresses, so the claim does not affect replay.
+const basePort = 20900
+
+var (
+	loopA, loopB string
+	claimLn      net.Listener
 )
+
+func init() {
+	start := os.Getpid() % 120
+	for i := 0; i < 120; i++ {
+		k := 1 + (start+i)%120
+		a := fmt.Sprintf("127.0.9.%d", 2*k)
+		l, err := net.Listen("tcp", net.JoinHostPort(a, "20898"))
+		if err != nil {
+			continue
+		}
+		claimLn = l
+		loopA = a
+		loopB = fmt.Sprintf("127.0.9.%d", 2*k+1)
+		return
+	}
+	fmt.Fprintln(os.Stderr, "c09 harness: no free 127.0.9.x address pair")
+	os.Exit(3)
+}
 
 const coqImports = "From FRP Require Import Corr.C09.\nOpen Scope Z_scope.\nOpen Scope string_scope.\n"
 
